@@ -155,17 +155,25 @@ class Ctl(Controller):
         return fut
 
 
-def spy_executor(captured):
-    from graphql.execution.execute import IncrementalExecutor
+EXEC_MODES = ("default", "base-subclass", "base")
 
-    class Spy(IncrementalExecutor):
+
+def spy_executor(captured, mode="default"):
+    """The executor class handed to execute(executor_class=...): a trivial subclass (recording the instance) of the default
+    IncrementalExecutor or of the base Executor - the documented extension point -, or the base Executor itself."""
+    from graphql.execution import Executor
+    from graphql.execution.execute import IncrementalExecutor
+    if mode == "base":
+        return Executor
+
+    class Spy(Executor if mode == "base-subclass" else IncrementalExecutor):
         def __init__(self, *a, **k):
             super().__init__(*a, **k)
             captured.append(self)
     return Spy
 
 
-def run_real(schema, doc, beh, order, lp=False, signal=False, kinds=None):
+def run_real(schema, doc, beh, order, lp=False, signal=False, kinds=None, mode="default"):
     """execute() under the controlled loop (lp: execute() itself is called inside the running loop).
     Returns a dict of observations."""
     from graphql import execute
@@ -180,7 +188,7 @@ def run_real(schema, doc, beh, order, lp=False, signal=False, kinds=None):
         from graphql.pyutils import AbortController
         kw["abort_signal"] = AbortController().signal
     try:
-        spy = spy_executor(captured)
+        spy = spy_executor(captured, mode)
     except Exception:  # noqa: BLE001
         spy = None
 
@@ -217,7 +225,7 @@ def run_real(schema, doc, beh, order, lp=False, signal=False, kinds=None):
     kind, res = ctl.run(make, list(order))
     obs = {"kind": kind, "log": log, "completed": list(ctl.completed_order), "futures": snap.get("futures", []),
            "ncalls_at_finish": snap.get("ncalls", 0), "nlog_at_finish": snap.get("nlog", len(log)), "positions": None,
-           "result": res, "kinds_used": sorted(getattr(w, "kinds_used", ()))}
+           "result": res, "kinds_used": sorted(getattr(w, "kinds_used", ())), "spied": mode != "base" and spy is not None}
     if captured:
         try:
             obs["positions"] = {tuple(p.as_list()) if p is not None else () for p in captured[0].collected_errors._error_positions}
@@ -390,22 +398,22 @@ def report_once(ck, key, what, rep):
 # --------------------------------------------------------------------------- one comparison
 
 
-def observe(schema, q, doc, beh, order, tree_info, lp=False, signal=False, kinds=None):
+def observe(schema, q, doc, beh, order, tree_info, lp=False, signal=False, kinds=None, mode="default"):
     """Run the implementation under `order`; returns the observations and the model request (the schedule is the
     completion order the loop actually used)."""
     root, leaves, _paths = tree_info
-    obs = run_real(schema, doc, beh, order, lp, signal, kinds)
+    obs = run_real(schema, doc, beh, order, lp, signal, kinds, mode)
     keys = Keys()
     wire_tree = enc_node(root, keys)
     sched = [keys.path(p) for p in obs["completed"]]
     wire = [1, int(lp)] + wire_tree + [len(sched)] + [x for p in sched for x in [len(p)] + p]
     return {"q": q, "beh": beh, "order": order, "obs": obs, "keys": keys, "wire": wire, "root": root, "leaves": leaves,
-            "lp": lp, "signal": signal, "kinds": kinds or {}}
+            "lp": lp, "signal": signal, "kinds": kinds or {}, "mode": mode}
 
 
-def compare(ck, m, schema, q, doc, beh, order, tree_info, rep_extra=None, lp=False, signal=False, kinds=None):
+def compare(ck, m, schema, q, doc, beh, order, tree_info, rep_extra=None, lp=False, signal=False, kinds=None, mode="default"):
     """One request through implementation and model."""
-    o = observe(schema, q, doc, beh, order, tree_info, lp, signal, kinds)
+    o = observe(schema, q, doc, beh, order, tree_info, lp, signal, kinds, mode)
     judge(ck, o, m.run_batch([o["wire"]])[0], rep_extra)
 
 
@@ -414,10 +422,11 @@ def judge(ck, o, out, rep_extra=None):
     ans = dec_answer(out, keys, leaves)
     n_async = count_nodes(root, lambda n: n[2])
     n_err = count_nodes(root, lambda n: n[3] == 0 or (n[3] == 1 and n[1]))
-    canon = (q, repr(sorted(beh.items())), tuple(order), o.get("lp", False), o.get("signal", False), repr(sorted(o.get("kinds", {}).items())))
+    canon = (q, repr(sorted(beh.items())), tuple(order), o.get("lp", False), o.get("signal", False), repr(sorted(o.get("kinds", {}).items())),
+             o.get("mode", "default"))
     ck.note_case(("casync",) + canon, nontrivial=n_async >= 2 and n_err >= 1)
-    key = f"async-model:{q}:{sorted(beh.items())!r}:{tuple(order)!r}:{o.get('lp', False)}:{o.get('signal', False)}"
-    rep = {"kind": "casync", "lp": o.get("lp", False), "signal": o.get("signal", False),
+    key = f"async-model:{q}:{sorted(beh.items())!r}:{tuple(order)!r}:{o.get('lp', False)}:{o.get('signal', False)}:{o.get('mode', 'default')}"
+    rep = {"kind": "casync", "lp": o.get("lp", False), "signal": o.get("signal", False), "executor": o.get("mode", "default"),
            "kinds": [[list(p), k] for p, k in sorted(o.get("kinds", {}).items(), key=repr)], "query": q, "behaviours": [[list(p), mo, wh] for p, (mo, wh) in sorted(beh.items(), key=repr)],
            "order": [list(p) for p in order], "completed": [list(p) for p in obs["completed"]], "wire": wire}
     if rep_extra:
@@ -454,7 +463,9 @@ def judge(ck, o, out, rep_extra=None):
             diffs.append(f"reported error paths: impl {sorted(r_paths, key=repr)} model {sorted(mo_paths, key=repr)}")
         elif r_paths != mo_paths:
             ck.count("casync_error_order_differs")
-        if obs["positions"] is None:
+        if obs["positions"] is None and not obs.get("spied", True):
+            pass  # the base Executor itself: no instance to look into
+        elif obs["positions"] is None:
             if "CASYNC: CollectedErrors._error_positions not observable" not in ck.degraded:
                 ck.degraded.append("CASYNC: CollectedErrors._error_positions not observable")
         elif obs["positions"] != {a for a, _ in m_errs}:
@@ -500,6 +511,7 @@ def judge(ck, o, out, rep_extra=None):
         ck.count("casync_awaitable_kind_" + k)
     if o.get("signal"):
         ck.count("casync_runs_with_unused_abort_signal")
+    ck.count("casync_executor_class_" + o.get("mode", "default"))
     # when the response is delivered only background work (abandoned siblings) may still be running: a cancelled resolver
     # must have finished unwinding
     running = {}
@@ -640,8 +652,9 @@ def core(ck, tier, model_ok, budget_s=None):
         doc = parse(q)
         for lp in (False, True):
             for signal in (False, True):
-                compare(ck, m, schema, q, doc, beh, order, derive_tree(schema, doc, beh), lp=lp, signal=signal,
-                        kinds=kinds[0] if kinds else None)
+                for mode in EXEC_MODES:
+                    compare(ck, m, schema, q, doc, beh, order, derive_tree(schema, doc, beh), lp=lp, signal=signal,
+                            kinds=kinds[0] if kinds else None, mode=mode)
     queries = [q for q in c03.QUERIES + EXTRA_QUERIES]
     docs = [(q, parse(q)) for q in queries]
     base = {}
@@ -667,7 +680,8 @@ def core(ck, tier, model_ok, budget_s=None):
             labels = [p for p, (mo, _) in sorted(beh.items(), key=repr) if mo == "async"]
             lp = rng.random() < 0.5
             signal = rng.random() < 0.25
-            batch = [observe(schema, q, doc, beh, order, info, lp, signal) for order in orders_for(rng, labels, quick)]
+            mode = rng.choice(("default", "default", "base-subclass", "base"))
+            batch = [observe(schema, q, doc, beh, order, info, lp, signal, mode=mode) for order in orders_for(rng, labels, quick)]
             for o, out in zip(batch, m.run_batch([o["wire"] for o in batch])):
                 judge(ck, o, out)
                 nruns += 1
@@ -700,7 +714,7 @@ def run_corpus_case(ck, m, schema, c):
         ck.count("corpus_case_unusable")
         return
     compare(ck, m, schema, c["query"], doc, beh, order, info, lp=bool(c.get("lp", False)), signal=bool(c.get("signal", False)),
-            kinds={tuple(p): k for p, k in c.get("kinds", [])})
+            kinds={tuple(p): k for p, k in c.get("kinds", [])}, mode=c.get("executor", "default"))
 
 
 def build():
